@@ -10,16 +10,18 @@ pub fn contract_enumerated_parser<C: Ctx>(cx: &mut C, max_root: usize, max_add: 
     const ALPHABET: [Option<i128>; 6] = [None, Some(-1), Some(0), Some(1), Some(2), Some(5)];
     // C13-adjacent: comments between the tokens of an enumeration must not change names or numbers
     // 0 none, 1 `-- c --` after each comma, 2 `/* c */` after each comma, 3 `--c--` inside the parentheses right before the number,
-    // 4 nested block comment whose inner opener is followed by `/`
-    let comments = cx.choose(5);
-    let between = ["", " -- c -- ", " /* c */ ", "", " /* a /*/ b */ c */ "][comments];
+    // 4 nested block comment whose inner opener is followed by `/`,
+    // 5 / 6 a block / line comment glued (no white-space) to the token before it: after `{`, after an identifier, after `)`, after `...`
+    let comments = cx.choose(7);
+    let between = ["", " -- c -- ", " /* c */ ", "", " /* a /*/ b */ c */ ", "", ""][comments];
+    let glued = ["", "", "", "", "", "/*g*/", "--g--"][comments];
     let in_parens = if comments == 3 { "--c--" } else { "" };
     let n_root = 1 + cx.choose(max_root);
     let marker = cx.any_bool();
     let n_add = if marker { cx.choose(max_add + 1) } else { 0 };
     let mut root = Vec::new();
     let mut adds = Vec::new();
-    let mut src = String::from("ENUMERATED { ");
+    let mut src = format!("ENUMERATED {{{glued} ");
     let mut names: Vec<String> = Vec::new();
     for i in 0..n_root {
         let w = ALPHABET[cx.choose(6)];
@@ -27,11 +29,13 @@ pub fn contract_enumerated_parser<C: Ctx>(cx: &mut C, max_root: usize, max_add: 
         let name = format!("r{i}");
         if i > 0 { src.push_str(", "); src.push_str(between); }
         src.push_str(&name);
-        if let Some(v) = w { src.push_str(&format!("({in_parens}{v})")); }
+        src.push_str(glued);
+        if let Some(v) = w { src.push_str(&format!("({in_parens}{v}){glued}")); }
         names.push(name);
     }
     if marker {
         src.push_str(", ...");
+        src.push_str(glued);
         for i in 0..n_add {
             let w = ALPHABET[cx.choose(6)];
             adds.push(w);
@@ -39,7 +43,8 @@ pub fn contract_enumerated_parser<C: Ctx>(cx: &mut C, max_root: usize, max_add: 
             src.push_str(", ");
             src.push_str(between);
             src.push_str(&name);
-            if let Some(v) = w { src.push_str(&format!("({in_parens}{v})")); }
+            src.push_str(glued);
+            if let Some(v) = w { src.push_str(&format!("({in_parens}{v}){glued}")); }
             names.push(name);
         }
     }
